@@ -64,12 +64,15 @@ class _Replay:
         return out
 
 
-def run_signonetime(ch_seed, images, paths):
+def run_signonetime(ch_seed, images, paths, leftovers=None):
     ch = Choices(seed=ch_seed)
     log, clock = EventLog(), Clock()
     dev = LedgerDevice(ch, clock, log)
     w = AdminWorld(ch, dev)
     for p, content in zip(paths, images):
+        w.fs.put(p, content)
+    # the tool may be run again in a directory that still holds what an earlier run wrote
+    for p, content in sorted((leftovers or {}).items()):
         w.fs.put(p, content)
     before = dict(w.fs.files)
     st, out = w.run_tool(signonetime.main, ["signonetime.py", "-a", ",".join(paths), "-p",
@@ -144,7 +147,11 @@ def run_one(ch, cfg):
     s1, s2 = ch.draw(1 << 30, "entropy-1"), ch.draw(1 << 30, "entropy-2")
     if s1 == s2:
         s2 = s1 + 1
-    runs = [run_signonetime(s1, images, paths), run_signonetime(s2, images, paths)]
+    first = run_signonetime(s1, images, paths)
+    left = None
+    if ch.draw(2, "second-run-in-same-directory") == 1:
+        left = {p: d for p, d in first[0].fs.files.items() if p.endswith(".sig") or p.endswith(".pub")}
+    runs = [first, run_signonetime(s2, images, paths, leftovers=left)]
     pubs = []
     for ri, (w, st, out, written, before) in enumerate(runs):
         tag = "signonetime run %d" % ri
